@@ -375,7 +375,8 @@ def run(rep):
         par = random_pars(rng)
         th.parameters.update(par)
         x = 10 ** rng.uniform(-5, math.log10(0.3))
-        Q2 = Q02 if rng.random() < 0.25 else Q02 * 10 ** rng.uniform(0, 2)
+        # a sixth of the evolved draws within a few per cent of the input scale (evolution just switched on)
+        Q2 = Q02 if rng.random() < 0.25 else Q02 * ((1 + 10 ** rng.uniform(-4, -1.3)) if rng.random() < 0.17 else 10 ** rng.uniform(0, 2))
         t = rng.uniform(-1, 0)
         asf, asr = couplings(th, Q2)
         tag = 'p=%d/%s' % (p, scheme)
@@ -540,7 +541,7 @@ def run(rep):
         par = random_pars(rng)
         th.parameters.update(par)
         x = 10 ** rng.uniform(-5, math.log10(0.3))
-        Q2 = 4.0 * 10 ** rng.uniform(0, 2)
+        Q2 = 4.0 * ((1 + 10 ** rng.uniform(-4, -1.3)) if rng.random() < 0.17 else 10 ** rng.uniform(0, 2))
         f2 = float(th.DISF2(g.DataPoint({'xB': x, 'Q2': Q2})))
         hpt, hpoint = used_point({'x': x, 'eta': 0, 't': 0, 'Q2': Q2})
         hx = th.Hx(hpt)
@@ -581,7 +582,7 @@ def run(rep):
         if gluon_only:
             par['ns'] = 0.0 if i % 8 == 2 else 1e-12
         th.parameters.update(par)
-        Q2 = 4.0 * 10 ** rng.uniform(0.2, 2)
+        Q2 = 4.0 * ((1 + 10 ** rng.uniform(-2.5, -1.3)) if i % 4 == 0 else 10 ** rng.uniform(0.2, 2))
         mq, mg = second_moments(th, Q2)
         tot = mq + mg
         track('momentum |∫x(Σ+g) - 0.6| (p=%d)' % p, abs(tot - 0.6))
